@@ -66,6 +66,8 @@ def cmp_num(a, b, op):
         return False
     if wa[0] in ("loc", "tab", "tab2", "mk", "thr", "grid", "rowC"):
         return False
+    if wa[0] == "gettab" and wa[1] != wb[1]:
+        return False
     for x, y in zip(wa[1:], wb[1:]):
         if x == y:
             continue
@@ -270,7 +272,11 @@ def gen_samplers(ctx, harness, n_grid, n_rand, n_planck, n_lymanT):
         tabs, _ = dump_tables(harness, mk)
         t1, t2 = parse_tabs(tabs)
         ops.append(mk)
-        ops.extend(tabs)
+        if kind == "planck":
+            # the model CONSTRUCTS the Planck tables (Model/Planck.lean); they are compared with the real ones
+            ops.extend(["gettab planck.cdf", "gettab planck.logcdf", "gettab planck.logfreq"])
+        else:
+            ops.extend(tabs)
         cdf = t1.get(kind + ".cdf") if with_cdf else None
         for T in temps:
             us = u_values(ctx, n_grid, n_rand, cdf)
@@ -432,7 +438,7 @@ def run(ctx):
         "theorems are about exact real arithmetic (Real.rpow, Real.sqrt, Real.exp, Real.log); IEEE rounding, overflow and libm are not modelled — the Float instantiation of the same definitions is compared with the real classes (bit-identical on this platform, tolerance %g)" % REL_TOL,
         "tables: Gen/Verner.lean is regenerated from the shipped data files on every run; the decimal literals denote the exact rationals of the files; the constructor conversions (eV -> Hz, pre-inversion) are part of the model and compared bit for bit with _data_A/_data_B/_data_C/_rrec/_rnew/_fe of the real objects",
         "'sampled frequencies follow the cumulative distribution': proved as 'the sampler is the exact inverse of its table' for the linear samplers (piecewise-linear CDF) and the Planck sampler (log-log interpolated CDF); for the Lyman continua only the exact formula is proved (t-weighted mix of the lower bin edges containing u in the two bracketing temperature tables: no interpolation inside the frequency bin, mix of quantiles instead of quantile of a mix) — sample_follows_table_cdf_lyman_partial; that the tables are the physical CDFs is searched: monotonicity of nu(u) and the deviation from an independently integrated Planck / uniform / linearly-masked distribution are evaluated on the implementation's samples (tolerance = one table bin)",
-        "sampler theorems take the table properties as hypotheses (cumulative table sorted with ends 0 and 1, frequency / temperature tables increasing, Planck log tables = log10 of the linear ones, first-bin floor 1e-10 < cdf[1]); the harness checks these hypotheses on every real table it constructs (ORACLE table-hypothesis)",
+        "Planck: the constructor is modelled (Model/Planck.lean; the driver BUILDS the three tables and they are compared bit for bit with the real ones) and planck_tables_wellformed proves every table hypothesis for every T > 0, so planck_spectrum_in_range is unconditional; for the other samplers (two-photon, masked, H/He Lyman continua) the constructors are not modelled: the theorems take the table properties as hypotheses (cumulative table sorted with ends 0 and 1, frequency / temperature tables increasing) and the harness checks them on every real table it constructs (ORACLE table-hypothesis)",
         "random numbers: u in [1e-10, 1) as in the property statement (u < 1e-10, in particular u = 0 which RANLUX can return, leaves the first bin of the log-log Planck interpolation: outside the stated domain)",
         "locate: length >= 2 (all call sites pass 1000, 100, 41 or the number of mask bins); for length <= 1 the unsigned arithmetic of the C++ wraps around",
         "get_charge_transfer_*_rate_H(ION_H_n), ..._He(ION_He_n) and get_charge_transfer_ionization_rate_He abort by design (cmac_error) and are not called by the ionization balance; not evaluated",
@@ -454,6 +460,7 @@ def run(ctx):
     if not ok:
         # a theorem / the generated table no longer checks: run the violation search anyway (the
         # property oracles on the implementation), with the model when the driver still builds
+        gen.generate()     # (another process may have restored the committed Gen file meanwhile)
         ok2, _ = vlib.lake_build(["drv_c18"])
         oracle_only = not ok2
     A, C, eth = load_thresholds(info)
@@ -476,7 +483,7 @@ def run(ctx):
         # xs / rec: the model is the published fit of the shipped table rows (sigma_is_fit,
         # sigma_is_sum_of_fits; recombination fits likewise) -> a disagreement is a failing input
         n, impl, model, orc = ctx.correspond(name, h, drv, ops, cmp=cmp, group_start=group_start, oracle_key=oracle_key,
-                                             model_is_spec=("differs-from-published-fit" if name in ("xs", "rec") else None))
+                                             model_is_spec=("differs-from-published-fit" if name in ("xs", "rec") else "differs-from-given-value" if name == "fixed" else None))
         t = Tally(ctx)
         t.add(ops, impl, model, nontrivial, key)
         tallies[name] = t
@@ -497,6 +504,14 @@ def run(ctx):
                          oracle_key=lambda what, grp: "xs:" + what.split()[0])
     k = next(i for i, o in enumerate(ops) if o.startswith("xs 2 "))
     ctx.sample({"stream": "xs", "ops": ops[k + 150:k + 153], "impl": impl[k + 150:k + 153], "model": model[k + 150:k + 153]})
+
+    # 2a. FixedValueCrossSections (constant per ion): argument order of the constructor vs IonName
+    fops = []
+    for k in range(q(40, 2000)):
+        vals = [ctx.rng.choice([0., 6.3e-22, ctx.rng.random() * 10 ** ctx.rng.uniform(-26, -20)]) for _ in range(14)]
+        for ion in range(info["nion"]):
+            fops.append("fxs %d %d %s" % (ion, B(10 ** ctx.rng.uniform(14, 18)), " ".join(str(B(v)) for v in vals)))
+    impl, model = stream("fixed", fops, cmp_exact, lambda op, tag: True, oracle_key=lambda what, grp: "fixed:" + what.split()[0])
 
     # 2b. reference values shipped with the repo's own (unpinned) tests
     ops, exp = load_reference(info)
@@ -616,10 +631,12 @@ MANIFEST = dict(
           "and random number); sample_follows_table_cdf_linear / _planck (the sampler is the exact inverse of its table's CDF, piecewise linear resp. linear in log-log). "
           "PARTIAL: sample_follows_table_cdf_lyman_partial states exactly what the two-table Lyman formula returns (t-weighted mix of the lower bin edges containing u), which matches a distribution only at bin resolution; "
           "'the tables are the CDFs of the physical spectra' is searched. "
-          "Tie: Float instantiation of the same definitions vs the real classes (100% bit-identical), property oracles on the implementation, reference values of the repo's own test data."),
+          "planck_tables_wellformed / planck_spectrum_in_range: the tables the Planck CONSTRUCTOR builds satisfy every hypothesis of the sampler theorem for every T > 0, hence a Planck source of any temperature samples inside [13.6, 54.4] eV for u in [1e-10, 1]; "
+          "coded_shells_are_spec: the shell sums of the C++ switch equal the hand-written specification ionShellsSpec (the driver evaluates the specification, so a changed switch yields a concrete (ion, energy)); fixed_value_cross_sections. "
+          "Tie: Float instantiation of the same definitions vs the real classes (100% bit-identical, incl. the 3 x 1000 Planck table entries per temperature), property oracles on the implementation, reference values of the repo's own test data."),
     note=("Trusted: Lean kernel + 3 standard axioms; translator tools/gen_c18_tables.py (render-back stream `tables`: generated rows after the model's constructor stage == _data_A/_data_B/_data_C/_rrec/_rnew/_fe of the real "
           "objects, bit for bit); hand model of the fit formulae, dielectronic terms, charge-transfer fits, locate and samplers (tied by correspondence, tolerance 1e-10); theorems are about real arithmetic, not IEEE doubles "
           "(finiteness / overflow only observed on the grids); sampler theorems take sortedness and end values of the tables as hypotheses, which the harness checks on every real table; u in [1e-10, 1) as in the property "
-          "(u = 0 or u < 1e-10, which RANLUX can return with probability 1e-10, leaves the Planck range: outside the stated domain); Planck table construction itself is not modelled; Lyman samplers do not interpolate "
+          "(u = 0 or u < 1e-10, which RANLUX can return with probability 1e-10, leaves the Planck range: outside the stated domain); constructors of the two-photon, masked and Lyman tables are not modelled (their table properties are checked premises); Lyman samplers do not interpolate "
           "inside a frequency bin (distribution matched at bin resolution only: searched)."),
     technique="Lean 4 proof (Real.rpow / sqrt / exp / log monotonicity, interval bounds with rational certificates, nlinarith for the dielectronic polynomials, induction over the bisection) + tables generated from the shipped data + differential correspondence with oracles")
